@@ -16,6 +16,7 @@
  * Includes
  **************************************/
 
+#include "EbVerifHooks.h"
 #include "EbDefinitions.h"
 
 #include "EbSvtAv1Dec.h"
@@ -112,7 +113,11 @@ EbErrorType decode_tile_row(DecModCtxt *dec_mod_ctxt, TilesInfo *tile_info,
         /* Top-Right Sync*/
         if (sb_row_in_tile) {
             while (*sb_completed_in_prev_row < MIN((sb_col + 2), tile_wd_in_sb))
+#ifdef SVT_AV1_VERIF
+                SVT_VERIF_SPIN();
+#else
                 ;
+#endif
             //Sleep(5); /* ToDo : Change */
         }
 
@@ -154,7 +159,11 @@ EbErrorType decode_tile(DecModCtxt *dec_mod_ctxt, TilesInfo *tile_info,
             volatile int32_t *sb_row_parsed = (volatile int32_t *)&parse_recon_tile_info_array
                                                   ->sb_recon_row_parsed[sb_row_in_tile];
             while (0 == *sb_row_parsed)
+#ifdef SVT_AV1_VERIF
+                SVT_VERIF_SPIN();
+#else
                 ;
+#endif
 
             int32_t sb_row = sb_row_in_tile + sb_row_tile_start;
 
